@@ -427,3 +427,49 @@ def rename_keeps_rank(ctx):
     """Renaming keeps an attribute at its rank (and with its identifier): otherwise a lower attribute becomes a higher one."""
     from . import c03
     c03.rename_keeps_id(ctx)
+
+
+@rule('C02', 'clause-independence')
+def clause_independence(ctx):
+    """The rights of a user key are the union, over the clauses of its policy, of rights computed from THAT clause alone: the
+    functions computing the points of one clause take no mutable state and the closure that maps them over the clauses captures
+    nothing mutably — nothing learnt from one clause (a cached restriction of a hierarchy, say) can leak into another, which
+    would hand a key the higher ranks of a clause it does not satisfy."""
+    F = ctx.F
+    per_clause = ['abe_policy::access_structure::AccessStructure::generate_complementary_points',
+                  'abe_policy::access_structure::AccessStructure::generate_semantic_space',
+                  'abe_policy::dimension::Dimension::restrict']
+    for k in per_clause:
+        b = F.fn(k)
+        muts = [i for i in range(1, b.argc + 1) if b.local_ty(i).startswith('&mut')]
+        ctx.check(not muts, k, 'no mutable parameter', '%s takes mutable state (parameter %s: %s): the rights computed for one clause '
+                  'can depend on the clauses processed before' % (k, muts[:1], b.local_ty(muts[0]) if muts else ''), 'pure in the clause', b.where())
+    rb = F.fn('abe_policy::access_structure::AccessStructure::generate_complementary_rights')
+    n = 0
+    for cb in F.closures_of(rb.key):
+        if not cb.calls(r'generate_complementary_points$'):
+            continue
+        n += 1
+        envty = cb.local_ty(1)
+        mut_caps = []
+        for (pb, b, st, rv, cl) in lib.closure_creation_sites(F, cb):
+            for o in rv['ops']:
+                if is_place(o):
+                    d = lib.single_def(pb, op_local(o))
+                    if d is not None and d.kind == 'assign' and d.rv['k'] == 'ref' and d.rv.get('mut'):
+                        mut_caps.append(o)
+        ctx.check(not mut_caps, rb.key, 'per-clause closure captures nothing mutably',
+                  'the closure mapping generate_complementary_points over the clauses captures a `&mut` (line %d): state '
+                  'is threaded from one clause to the next' % cb.line, 'Fn closure', cb.where())
+    # or a plain loop calling it: then the call's arguments carry no &mut either (covered by the parameter check above)
+    n += len(rb.calls(r'generate_complementary_points$'))
+    ctx.floor(n, 1, 'per-clause computation of the complementary points')
+
+
+@rule('C02', 'rights-from-every-attribute')
+def rights_from_every_attribute(ctx):
+    """The right an encapsulation targets is built from the identifier of EVERY attribute of the conjunction — a lookup that
+    fails is an error, never a skipped attribute (a right built from fewer attributes is more general: keys that do not satisfy
+    the policy open it) (C01.canon)."""
+    from . import c01
+    c01.canon(ctx)
